@@ -8,63 +8,7 @@ Part B (fuzz only, TEST SUPPORT, not proof): mutation of valid certificates, CRL
 import re, subprocess, os
 from vlib import core
 from vlib.core import hexs
-from vlib.codec_common import der_len, tlv, der_uint, b128, mutate, compare, key_hints, sm2_pub_bytes
-
-CONSTRUCTED = (0x30, 0x31) + tuple(range(0xa0, 0xa8))
-
-
-def tlv_spans(b, off=0, end=None, depth=0, out=None):
-    """(position of the first length octet, header size, content length) of every well-formed TLV, recursively"""
-    if out is None:
-        out = []
-    end = len(b) if end is None else end
-    i = off
-    while i + 2 <= end and depth < 8:
-        tag = b[i]
-        l0 = b[i + 1]
-        if l0 < 0x80:
-            n, hdr = l0, 2
-        else:
-            k = l0 & 0x7f
-            if k == 0 or k > 3 or i + 2 + k > end:
-                break
-            n, hdr = int.from_bytes(b[i + 2:i + 2 + k], "big"), 2 + k
-        if i + hdr + n > end:
-            break
-        out.append((i + 1, hdr, n))
-        if tag in CONSTRUCTED:
-            tlv_spans(b, i + hdr, i + hdr + n, depth + 1, out)
-        elif tag in (3, 4) and n > 2:      # BIT/OCTET STRING wrapping DER (extensions, keys)
-            inner = i + hdr + (1 if tag == 3 else 0)
-            if b[inner] in (0x30, 0x04, 0x03, 0x02):
-                tlv_spans(b, inner, i + hdr + n, depth + 1, out)
-        i += hdr + n
-    return out
-
-
-def structured_mutations(r, b, budget):
-    """truncations, length-octet edits at every TLV, tag edits, byte noise"""
-    out = []
-    n = len(b)
-    step = max(1, n // max(1, budget // 4))
-    for cut in range(0, n, step):
-        out.append(("truncate", b[:cut]))
-    spans = tlv_spans(b)
-    r.shuffle(spans)
-    for (pos, hdr, ln) in spans[:max(1, budget // 8)]:
-        for v in (b[pos] - 1, b[pos] + 1, 0, 0x7f, 0x80, 0x81, 0x82, 0x84, 0xff):
-            m = bytearray(b)
-            m[pos] = v & 255
-            out.append(("length-octet", bytes(m)))
-        m = bytearray(b)
-        m[pos - 1] = r.choice([0x30, 0x31, 0x02, 0x03, 0x04, 0x05, 0x06, 0x0c, 0x13, 0x17, 0x18, 0xa0, 0xa3, 0x80, 0x00, 0xff])
-        out.append(("tag", bytes(m)))
-        # grow / shrink the content with consistent outer lengths broken
-        out.append(("insert", b[:pos + hdr - 1] + r.bytes(r.range(1, 3)) + b[pos + hdr - 1:]))
-    for _ in range(budget // 3):
-        out.append(("noise", mutate(r, b, r.range(1, 3))))
-    return out
-
+from vlib.codec_common import der_len, tlv, der_uint, b128, mutate, compare, key_hints, sm2_pub_bytes, tlv_spans, structured_mutations
 
 # ------------------------------------------------------------------------------------ part A
 def gen_modelled(ctx):
@@ -408,11 +352,12 @@ def run(ctx):
         core.harness_build_failed(ctx, log if der is None else log2)
         return finish(ctx, 0, 0, 0)
     # ---- part A
-    casesA = gen_modelled(ctx)
+    from vlib import codec_x509
+    casesA = gen_modelled(ctx) + codec_x509.gen_x509(ctx, scale=2)
     linesA = [c[0] for c in casesA]
     mout, _ = core.run_lines(model, linesA)
     iout, ierr = core.run_lines(der, linesA)
-    nbad = compare(ctx, casesA, iout, mout, "asan", ierr, out_of_scope=("bit_empty", "oid_first", "oid_lead", "utf8", "multiple"))
+    nbad = compare(ctx, casesA, iout, mout, "asan", ierr, out_of_scope=("bit_empty", "oid_first", "oid_lead", "utf8", "digest_ret", "multiple"))
     ctx.notes.append("modelled part: %d cases, %d disagreements" % (len(casesA), nbad))
     # ---- part B
     mk = sorted({m for ms in FUZZ_KINDS.values() for m in ms} | {m for ms in DET_KINDS.values() for m in ms} | {"sm9p8smsk", "sm9p8sk", "sm9p8emsk", "sm9p8ek"})
